@@ -163,6 +163,9 @@ def run_check(prop, tier, seed, workers=None, budget=None, keep=False):
 
     rdir = os.path.join(os.environ.get("VF_REPLAY_DIR", os.path.join(ROOT, "replays")), prop)
     os.makedirs(rdir, exist_ok=True)
+    for old in os.listdir(rdir):            # replays belong to one run
+        if old.endswith(".json"):
+            os.remove(os.path.join(rdir, old))
     lines = []
     for kid, vs in sorted(kfound.items()):
         k = [x for x in known if x["id"] == kid][0]
